@@ -202,6 +202,14 @@ void harness::run_case(const eng::Raw& raw, eng::Ctx& ctx)
 	for (size_t si = firstStep; si < raw.size() && !W.failed; ++si) {
 		const eng::Rec& r = raw[si];
 		++W.step;
+		// the no-verdict rule (DESIGN 2.2) only applies while every live value is tiny: results of results grow, and the
+		// exponential calls (inclusion) are legitimately slow on them
+		{
+			bool tiny = true;
+			for (auto& m : W.tm) if (m.states().size() > 6 || m.rules.size() > 14) tiny = false;
+			for (auto& m : W.fm) if (m.states().size() > 8) tiny = false;
+			ctx.small_case(tiny);
+		}
 		const bool fa = (r[3] % 4 == 3);
 		uint32_t op = r[0] % 16;
 		std::string what;
@@ -490,6 +498,7 @@ void harness::run_case(const eng::Raw& raw, eng::Ctx& ctx)
 	// after all the unrelated activity above
 	for (size_t i = 0; i < W.repeats.size() && i < 8 && !W.failed; ++i) {
 		const Repeat& rep = W.repeats[i];
+		ctx.small_case(rep.a.states().size() <= 6 && rep.b.states().size() <= 6 && rep.a.rules.size() <= 14 && rep.b.rules.size() <= 14);
 		ExplicitTreeAut a, b;
 		{ eng::LibSection ls(ctx, "repeat:build"); a = lib::build(rep.a, id); b = lib::build(rep.b, id); }
 		if (rep.isVerdict) {
@@ -525,6 +534,7 @@ void harness::run_case(const eng::Raw& raw, eng::Ctx& ctx)
 	}
 	for (size_t i = 0; i < W.frepeats.size() && i < 6 && !W.failed; ++i) {
 		const FRepeat& rep = W.frepeats[i];
+		ctx.small_case(rep.a.states().size() <= 8 && rep.b.states().size() <= 8);
 		ExplicitFiniteAut a, b, out;
 		{ eng::LibSection ls(ctx, "repeat:fa-build"); a = libfa::build(rep.a, id); b = libfa::build(rep.b, id); }
 		if (!fa_value_op(ctx, rep.op, a, b, rep.a, rep.b, out)) continue;
